@@ -411,7 +411,7 @@ def handle (c : Ctx) (line : String) : Ctx × String :=
     let a := fixExp (FMat.ofFn 3 q)
     let a2 := fixExp (FMat.ofFn 3 fun i j => 2 * q i j)
     let aa := a.mul a
-    let tol : Int := (1 : Int) <<< (prec - 150)
+    let tol : Int := (1 : Int) <<< (prec - 130)
     let okSq := (List.range 3).all fun i => (List.range 3).all fun j => (aa.get i j - a2.get i j).natAbs < tol.toNat
     let okRow := (List.range 3).all fun i => ((List.range 3).foldl (fun s j => s + a.get i j) (0 : Int) - fixOne).natAbs < tol.toNat
     -- exp(-3) to 40 digits
